@@ -158,30 +158,36 @@ func handleSDIFFSTORE(params internal.HandlerFuncParams) ([]byte, error) {
 	return []byte(res), nil
 }
 
+// existingSets reads the sets stored at keys, in the order given. missing reports that at least one of the
+// keys does not exist. A key that exists but does not hold a set is an error, whatever its position.
+func existingSets(params internal.HandlerFuncParams, keys []string) (sets []*Set, missing bool, err error) {
+	keyExists := params.KeysExist(params.Context, keys)
+	for _, key := range keys {
+		if !keyExists[key] {
+			missing = true
+			continue
+		}
+		set, ok := params.GetValues(params.Context, []string{key})[key].(*Set)
+		if !ok {
+			return nil, false, fmt.Errorf("value at key %s is not a set", key)
+		}
+		sets = append(sets, set)
+	}
+	return sets, missing, nil
+}
+
 func handleSINTER(params internal.HandlerFuncParams) ([]byte, error) {
 	keys, err := sinterKeyFunc(params.Command)
 	if err != nil {
 		return nil, err
 	}
 
-	keyExists := params.KeysExist(params.Context, keys.ReadKeys)
-
-	var sets []*Set
-
-	for key, exists := range keyExists {
-		if !exists {
-			return []byte("*0\r\n"), nil
-		}
-		set, ok := params.GetValues(params.Context, []string{key})[key].(*Set)
-		if !ok {
-			// If the value at the key is not a set, return error
-			return nil, fmt.Errorf("value at key %s is not a set", key)
-		}
-		sets = append(sets, set)
+	sets, missing, err := existingSets(params, keys.ReadKeys)
+	if err != nil {
+		return nil, err
 	}
-
-	if len(sets) <= 0 {
-		return nil, fmt.Errorf("not enough sets in the keys provided")
+	if missing {
+		return []byte("*0\r\n"), nil
 	}
 
 	intersect, _ := Intersection(0, sets...)
@@ -195,8 +201,6 @@ func handleSINTERCARD(params internal.HandlerFuncParams) ([]byte, error) {
 	if err != nil {
 		return nil, err
 	}
-
-	keyExists := params.KeysExist(params.Context, keys.ReadKeys)
 
 	// Extract the limit from the command
 	var limit int
@@ -219,27 +223,22 @@ func handleSINTERCARD(params internal.HandlerFuncParams) ([]byte, error) {
 		}
 	}
 
-	var sets []*Set
-
-	for key, exists := range keyExists {
-		if !exists {
-			return []byte(":0\r\n"), nil
-		}
-		set, ok := params.GetValues(params.Context, []string{key})[key].(*Set)
-		if !ok {
-			// If the value at the key is not a set, return error
-			return nil, fmt.Errorf("value at key %s is not a set", key)
-		}
-		sets = append(sets, set)
+	sets, missing, err := existingSets(params, keys.ReadKeys)
+	if err != nil {
+		return nil, err
+	}
+	if missing {
+		return []byte(":0\r\n"), nil
 	}
 
-	if len(sets) <= 0 {
-		return nil, fmt.Errorf("not enough sets in the keys provided")
+	// The limit caps the cardinality of the intersection of all the sets.
+	intersect, _ := Intersection(0, sets...)
+	cardinality := intersect.Cardinality()
+	if limit > 0 && cardinality > limit {
+		cardinality = limit
 	}
 
-	intersect, _ := Intersection(limit, sets...)
-
-	return []byte(fmt.Sprintf(":%d\r\n", intersect.Cardinality())), nil
+	return []byte(fmt.Sprintf(":%d\r\n", cardinality)), nil
 }
 
 func handleSINTERSTORE(params internal.HandlerFuncParams) ([]byte, error) {
@@ -248,23 +247,16 @@ func handleSINTERSTORE(params internal.HandlerFuncParams) ([]byte, error) {
 		return nil, err
 	}
 
-	keyExists := params.KeysExist(params.Context, keys.ReadKeys)
-
-	var sets []*Set
-
-	for key, exists := range keyExists {
-		if !exists {
-			return []byte(":0\r\n"), err
-		}
-		set, ok := params.GetValues(params.Context, []string{key})[key].(*Set)
-		if !ok {
-			// If the value at the key is not a set, return error
-			return nil, fmt.Errorf("value at key %s is not a set", key)
-		}
-		sets = append(sets, set)
+	sets, missing, err := existingSets(params, keys.ReadKeys)
+	if err != nil {
+		return nil, err
 	}
 
-	intersect, _ := Intersection(0, sets...)
+	// A key that does not exist makes the intersection empty; the destination is replaced all the same.
+	intersect := NewSet([]string{})
+	if !missing {
+		intersect, _ = Intersection(0, sets...)
+	}
 	destination := keys.WriteKeys[0]
 
 	if err = params.SetValues(params.Context, map[string]interface{}{destination: intersect}); err != nil {
